@@ -413,7 +413,9 @@ func (c *creator) build() *Slim {
 
 	if *c.option.LeafPrefix {
 		ns.LeafPrefixes = &VLenArray{}
-		ns.LeafPrefixes.PresenceBM = newBM(c.leafPrefixIndexes, c.leafCnt, "r64")
+		// size the bitmap by the number of leaf nodes: c.leafCnt stays 0 when
+		// no values are supplied, which left lookups indexing past the bitmap.
+		ns.LeafPrefixes.PresenceBM = newBM(c.leafPrefixIndexes, c.nodeCnt-innerCnt, "r64")
 		ns.LeafPrefixes.PositionBM = newBM(stepToPos(c.leafPrefixLens, 0), 0, "s32")
 		ns.LeafPrefixes.Bytes = c.leafPrefixes
 	}
